@@ -509,7 +509,19 @@ fn lexical_c14(rep: &mut Report, rng: &mut Rng, o: &Opts) {
     ];
     for i in 0..(o.n / 2).max(90) {
         let (g, ef, lfmt) = &gs[i % 3];
-        let t = if i < 90 { g.term_of(rng, 1, i % 30) } else { g.term(rng, 0) };
+        let t = if i < 90 {
+            g.term_of(rng, 1, i % 30)
+        } else if i % 9 == 0 {
+            // nested unary / fixed-arity compounds directly inside each other (constructors that might normalise)
+            let x = g.term(rng, 3);
+            match i % 27 {
+                0 => Term::new_negation(Term::new_negation(x)),
+                9 => Term::new_negation(Term::new_negation(Term::new_negation(x))),
+                _ => Term::new_difference_extension(Term::new_negation(Term::new_negation(x.clone())), x),
+            }
+        } else {
+            g.term(rng, 0)
+        };
         let s = ef.format_term(&t);
         let lx = match lfmt.parse_term(&s) {
             Ok(x) => x,
